@@ -195,27 +195,9 @@ func spliceOnce(t *rapid.T, p *Prog) {
 		node = fmt.Sprintf("{{range $.L%d}}%s{{end}}", l, body)
 	}
 	cl := classify(s, i)
-	for _, piece := range []string{s[:i], stretch} {
-		if lt := strings.LastIndexByte(piece, '<'); lt >= 0 && !strings.Contains(piece[lt:], ">") {
-			tail := piece[lt+1:]
-			if tail == "" || tail[0] == '!' || tail[0] == '?' || tail[0] == '/' && (len(tail) == 1 || !isAlpha(tail[1])) {
-				// a text node ending inside a tag-open, markup declaration, processing instruction or bogus
-				// end tag, directly before a template node: the engine treats the '<' as text (class
-				// boundary-lt, generated on purpose by the zones search)
-				addFlag(p, "zone:boundary-lt")
-			}
-		}
-	}
-	// the end tag of a special element split by the node: the engine does not recognise the end tag and goes on
-	// treating what follows as the element's body (known deviation K-endsplit, harmless direction)
-	low := strings.ToLower(s[:i])
-	if lt := strings.LastIndex(low, "</"); lt >= 0 {
-		part := low[lt:]
-		for _, name := range []string{"script", "style", "title", "textarea"} {
-			if full := "</" + name; len(part) >= 2 && len(part) <= len(full) && strings.HasPrefix(full, part) {
-				addFlag(p, "zone:K-endsplit")
-			}
-		}
+	flagBoundary(p, s[:i], s[i:])
+	if n > 0 {
+		flagBoundary(p, s[:i+n], s[i+n:])
 	}
 	p.Main = s[:i] + node + s[i+n:]
 	addFlag(p, "splice")
@@ -229,4 +211,180 @@ func addFlag(p *Prog, f string) {
 		}
 	}
 	p.Flags = append(p.Flags, f)
+}
+
+// flagBoundary records what a template node between before and after (both static template text, after up to the
+// next template node) means for the known-deviation zones.
+func flagBoundary(p *Prog, before, after string) {
+	if e := strings.Index(after, "{{"); e >= 0 {
+		after = after[:e]
+	}
+	if lt := strings.LastIndexByte(before, '<'); lt >= 0 && !strings.Contains(before[lt:], ">") {
+		tail := before[lt+1:]
+		if tail == "" || tail[0] == '!' || tail[0] == '?' || tail[0] == '/' && (len(tail) == 1 || !isAlpha(tail[1])) {
+			// a text node ending inside a tag-open, markup declaration, processing instruction or bogus end tag,
+			// directly before a template node: the engine treats the '<' as text (class boundary-lt, generated on
+			// purpose by the zones search)
+			addFlag(p, "zone:boundary-lt")
+		}
+	}
+	// the end tag of a special element split by the node (anywhere from directly after its '<' on): the engine does not
+	// recognise the end tag and goes on treating what follows as the element's body (known deviation K-endsplit,
+	// harmless direction)
+	low, rest := strings.ToLower(before), strings.ToLower(after)
+	if lt := strings.LastIndex(low, "<"); lt >= 0 {
+		part := low[lt:]
+		for _, name := range []string{"script", "style", "title", "textarea"} {
+			full := "</" + name
+			if len(part) <= len(full) && strings.HasPrefix(full, part) && (len(part) >= 2 || strings.HasPrefix(rest, full[len(part):])) {
+				addFlag(p, "zone:K-endsplit")
+			}
+		}
+	}
+}
+
+// region mutation: a balanced stretch of the template text (it may hold template nodes) is wrapped into a control
+// structure or moved into a helper template that is called in its place - optionally with a self-call that never
+// runs, optionally called a second time somewhere else.
+
+type spos struct {
+	i, depth int
+	inTag    bool
+}
+
+// scan lists the static positions of s with their nesting depth and, per depth, the positions of {{else}} nodes.
+func scan(s string) (ps []spos, elses map[int][]int) {
+	elses = map[int][]int{}
+	depth, tag := 0, false
+	for i := 0; i <= len(s); i++ {
+		if i < len(s) && strings.HasPrefix(s[i:], "{{") {
+			ps = append(ps, spos{i, depth, tag})
+			e := strings.Index(s[i:], "}}")
+			if e < 0 {
+				return
+			}
+			a := strings.TrimLeft(strings.TrimSpace(strings.Trim(s[i+2:i+e], "-")), " ")
+			switch {
+			case strings.HasPrefix(a, "if "), strings.HasPrefix(a, "range "), strings.HasPrefix(a, "with "), strings.HasPrefix(a, "define "), strings.HasPrefix(a, "block "):
+				depth++
+			case a == "end":
+				depth--
+			case strings.HasPrefix(a, "else"):
+				elses[depth] = append(elses[depth], i)
+			}
+			i += e + 1
+			continue
+		}
+		ps = append(ps, spos{i, depth, tag})
+		if i < len(s) {
+			if s[i] == '<' && i+1 < len(s) && (isAlpha(s[i+1]) || s[i+1] == '/') {
+				tag = true
+			} else if s[i] == '>' {
+				tag = false
+			}
+		}
+	}
+	return
+}
+
+// Region applies one region mutation to p.Main.
+func Region(t *rapid.T, p *Prog) {
+	s := p.Main
+	ps, elses := scan(s)
+	if len(ps) < 2 {
+		return
+	}
+	var inTag []int
+	for k, q := range ps {
+		if q.inTag {
+			inTag = append(inTag, k)
+		}
+	}
+	a := rapid.IntRange(0, len(ps)-1).Draw(t, "rstart")
+	if len(inTag) > 0 && rapid.IntRange(0, 2).Draw(t, "rintag") != 0 {
+		a = inTag[rapid.IntRange(0, len(inTag)-1).Draw(t, "rstartintag")]
+	}
+	// candidate ends: same depth, never below it in between, no {{else}} of that depth in between, at most 80 bytes
+	var ends []int
+	for b := a + 1; b < len(ps) && ps[b].i-ps[a].i <= 80; b++ {
+		if ps[b].depth < ps[a].depth {
+			break
+		}
+		if ps[b].depth != ps[a].depth {
+			continue
+		}
+		ok := true
+		for _, e := range elses[ps[a].depth] {
+			if e >= ps[a].i && e < ps[b].i {
+				ok = false
+			}
+		}
+		// the position must not sit in the middle of a UTF-8 sequence
+		if ok && (ps[b].i >= len(s) || s[ps[b].i]&0xC0 != 0x80) {
+			ends = append(ends, b)
+		}
+	}
+	if len(ends) == 0 || (ps[a].i < len(s) && s[ps[a].i]&0xC0 == 0x80) {
+		return
+	}
+	b := ends[rapid.IntRange(0, len(ends)-1).Draw(t, "rend")]
+	i, j := ps[a].i, ps[b].i
+	r := s[i:j]
+	var node string
+	op := rapid.SampledFrom([]string{"if", "ifelse", "range", "rangeelse", "with", "helper", "helper", "helperrec", "helpertwice"}).Draw(t, "rop")
+	switch op {
+	case "if":
+		c := p.NCond
+		p.NCond++
+		node = fmt.Sprintf("{{if $.C%d}}%s{{end}}", c, r)
+	case "ifelse":
+		c := p.NCond
+		p.NCond++
+		node = fmt.Sprintf("{{if $.C%d}}%s{{else}}%s{{end}}", c, r, rapid.SampledFrom([]string{"", " ", "x", r}).Draw(t, "ralt"))
+	case "range":
+		l := p.NList
+		p.NList++
+		node = fmt.Sprintf("{{range $.L%d}}%s{{end}}", l, r)
+	case "rangeelse":
+		l := p.NList
+		p.NList++
+		node = fmt.Sprintf("{{range $.L%d}}%s{{else}}%s{{end}}", l, r, rapid.SampledFrom([]string{"", r, r, "x"}).Draw(t, "relse"))
+	case "with":
+		w := p.NWith
+		p.NWith++
+		node = fmt.Sprintf("{{with $.W%d}}%s{{end}}", w, r)
+	default:
+		h := len(p.Helpers)
+		call := fmt.Sprintf(`{{template "h%d" $}}`, h)
+		body := r
+		if op == "helperrec" {
+			// a self-call that never runs ($.Never is not in the data), at the start or at the end of the body
+			self := "{{if $.Never}}" + call + "{{end}}"
+			if rapid.Bool().Draw(t, "recfirst") {
+				body = self + body
+			} else {
+				body += self
+			}
+		}
+		p.Helpers = append(p.Helpers, body)
+		node = call
+		if op == "helpertwice" {
+			// a second call somewhere else in the main text (most such programs are refused)
+			k := ps[rapid.IntRange(0, len(ps)-1).Draw(t, "rsecond")].i
+			if (k <= i || k >= j) && (k >= len(s) || s[k]&0xC0 != 0x80) {
+				flagBoundary(p, s[:k], s[k:])
+				if k >= j {
+					s = s[:k] + call + s[k:]
+				} else {
+					s = s[:k] + call + s[k:]
+					i, j = i+len(call), j+len(call)
+				}
+			}
+		}
+	}
+	flagBoundary(p, s[:i], s[i:])
+	flagBoundary(p, s[:j], s[j:])
+	p.Main = s[:i] + node + s[j:]
+	addFlag(p, "splice")
+	addFlag(p, "region:"+op)
 }
